@@ -14,7 +14,9 @@ RULE = ("cartesian products of strings {empty, ASCII, 2/3/4-byte characters, 255
 ASSUMPTIONS = ["STR$/VAL are compared model-vs-implementation only (the numeric text contract is C11's)"]
 EXHAUSTIVE = {"quick": True, "thorough": True}
 
-STRS = ["", "A", "AB", "ABCDE", "é", "aé日😀b", "日" * 5, "abcabc", "aaa", "x" * 254, "y" * 255, "z" * 256, "日" * 255, "日" * 256, " pad "]
+STRS = ["", "A", "AB", "ABCDE", "é", "aé日😀b", "日" * 5, "abcabc", "aaa", "x" * 254, "y" * 255, "z" * 256, "日" * 255, "日" * 256, " pad ",
+        # first characters at and around the end of the Integer range, at the end of the 16-bit range, and beyond it
+        "\u7fffx", "\u8000x", "\uac00\uac01", "\uff21bc", "\uffffz", "\U00010000", "😀", "\U0010ffff"]
 PATS = ["", "A", "B", "c", "bc", "abc", "aa", "é", "日", "😀b", "zz", "E", "ABCDEF"]
 
 
@@ -124,7 +126,8 @@ def expected(line):
         if not s:
             return ("error",)
         c = ord(s[0])
-        return ("exact", "ok I:%d" % c) if c <= 32767 else None
+        # code points beyond the Integer range come back as a Single, exactly (every code point is below 2^24)
+        return ("exact", "ok I:%d" % c) if c <= 32767 else ("exact", "ok " + S(float(c)))
     if k == "op2" and name in ("left", "right"):
         s, n = dec(a[0][2:]), ival(a[1])
         if n < 0:
